@@ -30,6 +30,9 @@ pub enum Op {
     OpenTrunc(u8),
     WriteAt(u8, u8, u8, Front),
     Append(u8),
+    /// open(append) only; one ring Write of "q" at the current end of the file (an append-only
+    /// handle is a writable descriptor)
+    AppendRing(u8),
     SetLen(u8, u8),
     /// read_at through an opened handle: (file, off, len)
     ReadAt(u8, u8, u8, Front),
@@ -75,6 +78,7 @@ impl Op {
             Op::WriteAt(f, o, d, fr) => format!("{:?} write_at {} off={} {:?}", fr, FILES[f as usize], o, String::from_utf8_lossy(DATA[d as usize])),
             Op::WriteAtSynced(f, o, d) => format!("write_at {} off={} {:?} [background sync coin = yes]", FILES[f as usize], o, String::from_utf8_lossy(DATA[d as usize])),
             Op::Append(f) => format!("open(append) {} write \"q\"", FILES[f as usize]),
+            Op::AppendRing(f) => format!("open(append) {} ring write \"q\" at end of file", FILES[f as usize]),
             Op::SetLen(f, n) => format!("set_len {} {}", FILES[f as usize], n),
             Op::ReadAt(f, o, l, fr) => format!("{:?} read_at {} off={} len={}", fr, FILES[f as usize], o, l),
             Op::Cursor(f) => format!("cursor script on {}", FILES[f as usize]),
@@ -102,7 +106,7 @@ impl Op {
             Op::CreateNew(_) => "create_new",
             Op::OpenTrunc(_) => "open_trunc",
             Op::WriteAt(..) | Op::WriteAtSynced(..) => "write",
-            Op::Append(_) => "append",
+            Op::Append(_) | Op::AppendRing(_) => "append",
             Op::SetLen(..) => "set_len",
             Op::ReadAt(..) => "read_at",
             Op::Cursor(_) => "cursor",
@@ -124,7 +128,7 @@ impl Op {
     /// paths this op names
     pub fn paths(&self) -> Vec<&'static str> {
         match *self {
-            Op::Create(f) | Op::CreateNew(f) | Op::OpenTrunc(f) | Op::Append(f) | Op::SetLen(f, _) | Op::Cursor(f) | Op::AppendCursor(f)
+            Op::Create(f) | Op::CreateNew(f) | Op::OpenTrunc(f) | Op::Append(f) | Op::AppendRing(f) | Op::SetLen(f, _) | Op::Cursor(f) | Op::AppendCursor(f)
             | Op::RemoveFile(f) | Op::SyncData(f) => vec![FILES[f as usize]],
             Op::WriteAt(f, ..) | Op::WriteAtSynced(f, ..) | Op::ReadAt(f, ..) | Op::SyncAll(f, _) | Op::SyncAllRO(f) => vec![FILES[f as usize]],
             Op::RenameF(a, b) => vec![FILES[a as usize], FILES[b as usize]],
@@ -383,6 +387,16 @@ pub fn exec_impl(op: Op) -> Res {
                 let mut h = r(sfs::OpenOptions::new().append(true).open(FILES[f as usize]))?;
                 Res::Count(r(h.write(b"q"))?)
             }
+            Op::AppendRing(f) => {
+                let h = r(sfs::OpenOptions::new().append(true).open(FILES[f as usize]))?;
+                let end = r(h.metadata())?.len();
+                let data = b"q";
+                let n = uring_one(|fd| turmoil_io_uring::opcode::Write::new(fd, data.as_ptr(), 1).offset(end).build(), &h)?;
+                if n < 0 {
+                    return Err(uring_errno(n));
+                }
+                Res::Count(n as usize)
+            }
             Op::SetLen(f, n) => {
                 let h = r(sfs::OpenOptions::new().write(true).open(FILES[f as usize]))?;
                 r(h.set_len(n as u64))?;
@@ -539,7 +553,7 @@ pub fn exec_model(m: &mut Model, op: Op) -> Result<Res, Errc> {
             m.sync_file(FILES[f as usize])?;
             Res::Count(n)
         }
-        Op::Append(f) => Res::Count(m.append(FILES[f as usize], b"q")?),
+        Op::Append(f) | Op::AppendRing(f) => Res::Count(m.append(FILES[f as usize], b"q")?),
         Op::SetLen(f, n) => {
             m.set_len(FILES[f as usize], n as u64)?;
             Res::Ok
